@@ -67,6 +67,19 @@ theorem style_new_appended (ds : List (Str × Str)) (k v : Str) (h : ∀ d ∈ d
     simp only [mergeStyleDecl, hb, Bool.false_eq_true, ↓reduceIte, List.cons_append]
     rw [ih (fun x hx => h x (by simp [hx]))]
 
+/-- a style value is a CSS value, not a condition: what decides whether a pair contributes a declaration is whether its string form is
+    empty — never its truthiness. The number 0 (falsy) contributes `opacity:0;` -/
+theorem style_pair_by_string_form (k : Str) (x : Val) :
+    buildStyleString [(k, some x)] =
+      if trim (trimSpace x.sprint) ['"', '\''] == [] then []
+      else (if (trimSpace k).contains '-' then trimSpace k else camelToKebab (trimSpace k) true) ++ ':' :: trim (trimSpace x.sprint) ['"', '\''] ++ [';'] := by
+  unfold buildStyleString
+  simp only [List.filterMap_cons, List.filterMap_nil]
+  split <;> simp_all
+
+example : isTruthy (.int .int 0) = false ∧ buildStyleString [("opacity".toList, some (.int .int 0)), ("zIndex".toList, some (.int .int 0))] = "opacity:0;z-index:0;".toList := by
+  decide
+
 /-- (4) v-show adds `display:none` exactly when its condition is falsy, and leaves the attributes alone otherwise -/
 theorem vshow_hidden_iff_falsy (P : Params) (s : Stack) (attrs : List Attr) (b : Bool)
     (hne : getAttr attrs (S "v-show") ≠ []) (hc : evalCondition P s (getAttr attrs (S "v-show")) = .ok b) :
